@@ -45,6 +45,18 @@ Theorem C15_never_a_mixture :
 Proof. exact single_tag. Qed.
 Print Assumptions C15_never_a_mixture.
 
+(* ... and so are its error reports: the failure of a delivery is handed to the error handler of the snapshot
+   the record loaded (handler and appender table are fields of one SharedLogger) - also when the configuration,
+   and with it the handler, was replaced while the record was in flight. *)
+Theorem C15_errors_reported_by_loaded_snapshot :
+  forall fails reent c0 progs sch tid k s pre post d,
+    trace (Swap.run reent sch (init_state c0 progs)) = pre ++ ELoad (tid, k) s :: post ->
+    In d (reports fails (tid, k) (trace (Swap.run reent sch (init_state c0 progs)))) ->
+    fst d = fst s /\
+    exists tg L, nth_error (nth tid progs []) k = Some (OLog tg L) /\ In d (route s tg L).
+Proof. exact reports_by_loaded_snapshot. Qed.
+Print Assumptions C15_errors_reported_by_loaded_snapshot.
+
 (* A log call that loads after a store (set_config's linearisation point; a
    fortiori after set_config returned), with no later store in between, uses
    exactly the stored configuration. *)
